@@ -1,5 +1,6 @@
 /-
-Simple programs, part 4: the program-level statement.  Walk facts of a program (Proofs/ObfFacts.lean `factsProgram`, a decidable
+Part 4: the program-level statement (every program; the file names `ObfSimple*` date from the first version, which covered function and
+global scopes only).  Walk facts of a program (Proofs/ObfFacts.lean `factsProgram`, a decidable
 book-keeping statement about what the prewalk registered where) + the proved invariants of every scope record (`finalize_chainGood`:
 `remap_injective_visible`, table facts, leak invariant, declared ⊆ referenced) ⇒ `condProgram` for the obfuscator's renaming, i.e. the
 hypothesis of the renaming simulation: no capture, every declaration and reference renamed by its own environment record.
@@ -31,9 +32,9 @@ theorem condProgram_of_facts (fin : Final) (recs : List Rec) (hgood : ∀ R ∈ 
         have htab : rootTable fin = A.remapped := of_decide_eq_true htab0
         have hch : lookupChain fin.chains R.id = some (entriesOf [A]) := of_decide_eq_true hch0
         have hg : ChainGood [A] := hc ▸ hgood R (by rw [hrecs]; exact List.mem_cons_self ..)
-        have hinv : Inv fin (Spec.Scope.globalCtx program) { sid := R.id, chain := [A] } := by
-          refine ⟨?_, rfl, hch⟩
-          refine .root (hoistVal program) A hk (setEq_iff hset) ?_ hg
+        have hinv : Inv fin (Spec.Scope.globalCtx program) { sid := R.id, chain := [A], env := [{ kind := .global, scope := [], names := hoistVal program }], labels := [] } := by
+          refine ⟨?_, rfl, hch, rfl, rfl, fun x hx => absurd hx List.not_mem_nil⟩
+          refine .root (hoistVal program) A hk (subsetOf_iff hset) ?_ hg
           intro n
           have e : tauN (tauFin fin) .global [] n = applyTable (rootTable fin) n := rfl
           rw [e, htab]
